@@ -203,6 +203,14 @@ Shape0(run) ==
                             run.out[i].k = "ipfix" /\ d <= Len(run.out[i].dropped) /\ run.out[i].dropped[d].why = "unknown-template"})
   IN ks \o "|" \o run.stop \o "|" \o why \o "|" \o ToString(unk)
 
+\* what the reference says about a buffer delivered alone: "one" = exactly one packet, decoded without error, that ends
+\* where the buffer ends (a V9 packet: announcing as many flowsets as it holds); "err" = an error at its first byte
+RefOne(run, n) ==
+  LET o == run.out IN
+  IF Len(o) # 1 THEN "other"
+  ELSE IF o[1].k = "err" THEN (IF o[1].s = 1 THEN "err" ELSE "other")
+  ELSE IF run.stop = "end" /\ o[1].e = n /\ (o[1].k = "v9" => o[1].hdr.count = Len(o[1].sets)) THEN "one" ELSE "other"
+
 EvRet == /\ ~Light /\ IsEvent("ret")
          /\ pend # <<>> /\ pend[1].p = Rec[l].p
          /\ LET ev == Rec[l]
@@ -218,7 +226,8 @@ EvRet == /\ ~Light /\ IsEvent("ret")
                /\ tms' = [tms EXCEPT ![p] = post]
                /\ lasts' = [lasts EXCEPT ![p] = j.last]
                /\ acc' = [acc EXCEPT ![p] = [out |-> @.out \o ev.out, nbytes |-> @.nbytes + Len(pend[1].buf),
-                                             calls |-> Append(@.calls, [n |-> Len(pend[1].buf), out |-> ev.out, buf |-> pend[1].buf]),
+                                             calls |-> Append(@.calls, [n |-> Len(pend[1].buf), out |-> ev.out, buf |-> pend[1].buf,
+                                                                        ref |-> RefOne(j.run, Len(pend[1].buf))]),
                                              shas |-> Append(@.shas, ev.json.sha)]]
          /\ pend' = <<>>
          /\ UNCHANGED allowed
@@ -249,16 +258,15 @@ Lead(out, S) == LET k == FirstIdx(Len(out), LAMBDA q : ObsVersion(out[q]) \notin
                 IF k = 0 THEN out ELSE SubSeq(out, 1, k - 1)
 RoundFindings(ev) ==
   IF ev.kind = "chain" THEN
-    \* b was fed one packet per call: its observations certify that the stream is a sequence of
-    \* self-delimiting packets, each decoding without error when delivered alone (C11's antecedent)
+    \* b was fed one packet per call; the reference run of each of those calls (RefOne) certifies that the stream is a
+    \* sequence of self-delimiting packets, each decoding without error when delivered alone (C11's antecedent).
+    \* (Certifying by b's own observations would let a change that breaks the framing of single packets switch
+    \* the round off.)
     LET A == acc[ev.a]  B == acc[ev.b]
         \* (the last packet alone may be one that is reported as an error: chaining stops there either way)
         cert == \A i \in 1..Len(B.calls) :
-                  LET c == B.calls[i] IN
-                  /\ Len(c.out) = 1
-                  /\ \/ /\ c.out[1].k # "err" /\ ObsWire(c.out[1]) = c.n
-                        /\ (c.out[1].k = "v9" => c.out[1].hdr.count = Len(c.out[1].sets))
-                     \/ i = Len(B.calls) /\ c.out[1].k = "err" /\ c.out[1].rem = c.buf IN
+                  \/ B.calls[i].ref = "one"
+                  \/ i = Len(B.calls) /\ B.calls[i].ref = "err" IN
     IF A.nbytes = B.nbytes /\ B.calls # <<>> /\ cert
       THEN (IF A.out # B.out THEN {<<"C11", "chain", "results", "">>} ELSE {})
            \cup (IF tms[ev.a] # tms[ev.b] THEN {<<"C11", "chain", "cache", "">>, <<"C06", "partition", "cache", "">>} ELSE {})
@@ -300,10 +308,27 @@ RoundFindings(ev) ==
       ELSE {}
   ELSE {}
 
+\* did the antecedent of the round hold (coverage only; the same conditions as in RoundFindings)
+RoundAnte(ev) ==
+  IF ev.kind = "chain" THEN
+    LET A == acc[ev.a]  B == acc[ev.b] IN
+    A.nbytes = B.nbytes /\ B.calls # <<>>
+      /\ \A i \in 1..Len(B.calls) : B.calls[i].ref = "one" \/ (i = Len(B.calls) /\ B.calls[i].ref = "err")
+  ELSE IF ev.kind = "filter" THEN TRUE
+  ELSE IF ev.kind \in {"twins", "twinsout"} THEN
+    LET A == acc[ev.a]  B == acc[ev.b] IN
+    [i \in 1..Len(A.calls) |-> A.calls[i].buf] = [i \in 1..Len(B.calls) |-> B.calls[i].buf]
+      /\ (ev.kind = "twinsout" => allowed[ev.a] = allowed[ev.b] /\ tms[ev.a] = tms[ev.b])
+  ELSE IF ev.kind = "trunc" THEN
+    LET A == acc[ev.a]  B == acc[ev.b] IN
+    NoErr(B.out) /\ SumSeq([i \in 1..Len(B.out) |-> ObsWire(B.out[i])]) = B.nbytes /\ A.nbytes > B.nbytes
+      /\ Len(A.calls) = 1 /\ TruncatedAt(A.calls[1].buf, B.nbytes + 1)
+  ELSE FALSE
+
 \* kind "mark": forget what was accumulated so far (the shared prior history of a round)
 EvRound == /\ IsEvent("round")
            /\ Emit(RoundFindings(Rec[l]))
-           /\ PrintT("ROUND~~" \o ToString(l) \o "~~" \o Rec[l].kind)
+           /\ PrintT("ROUND~~" \o ToString(l) \o "~~" \o Rec[l].kind \o "~~" \o Bool(RoundAnte(Rec[l])))
            /\ acc' = IF Rec[l].kind = "mark" THEN [p \in DOMAIN acc |-> [out |-> <<>>, nbytes |-> 0, calls |-> <<>>, shas |-> <<>>]] ELSE acc
            /\ UNCHANGED <<tms, lasts, allowed, pend>>
 
